@@ -96,6 +96,28 @@ pub fn no_panic<T>(f: impl FnOnce() -> T) -> Result<T, String> {
 }
 
 // ---------------------------------------------------------------------------------------------
+// crash attribution: when the supervising parent (bin/check.rs) re-runs a check whose process died, VERIF_TRACE_DIR is set
+// and every case is written down before it runs; the files left behind are the candidates for the crash
+
+fn trace_dir() -> Option<&'static PathBuf> {
+	static DIR: std::sync::OnceLock<Option<PathBuf>> = std::sync::OnceLock::new();
+	DIR.get_or_init(|| std::env::var_os("VERIF_TRACE_DIR").map(PathBuf::from)).as_ref()
+}
+
+pub fn trace_case<T: Serialize>(property: &str, sub: &str, slot: &str, case: &T) {
+	if let Some(dir) = trace_dir() {
+		let v = json!({ "property": property, "sub": sub, "reason": "the check process died while this case was running", "case": case });
+		let _ = std::fs::write(dir.join(format!("{}.json", slot.replace('/', "_"))), serde_json::to_string(&v).unwrap_or_default());
+	}
+}
+
+pub fn trace_done(slot: &str) {
+	if let Some(dir) = trace_dir() {
+		let _ = std::fs::remove_file(dir.join(format!("{}.json", slot.replace('/', "_"))));
+	}
+}
+
+// ---------------------------------------------------------------------------------------------
 // known findings
 
 #[derive(Clone, Debug, serde::Deserialize)]
@@ -287,6 +309,7 @@ impl Ctx {
 			};
 			let fname = path.file_name().and_then(|f| f.to_str()).unwrap_or("").to_string();
 			self.replayed += 1;
+			trace_case(&self.property, name, &format!("{name}-saved"), &case);
 			if let Some(id) = fname.strip_prefix("known-").and_then(|f| f.strip_suffix(".json")) {
 				let finding = self.findings.findings.iter().find(|f| f.id == id).cloned();
 				let Some(finding) = finding else {
@@ -323,6 +346,7 @@ impl Ctx {
 			let fname = path.file_name().and_then(|f| f.to_str()).unwrap_or("").to_string();
 			self.replayed += 1;
 			let known = fname.strip_prefix("known-").and_then(|f| f.strip_suffix(".json")).and_then(|id| self.findings.findings.iter().find(|f| f.id == id).cloned());
+			trace_case(&self.property, name, &format!("{name}-saved"), &value);
 			match known {
 				Some(finding) if finding.status == "open" => {
 					let mut obs = self.new_obs();
@@ -408,6 +432,7 @@ impl Ctx {
 
 		self.record_sub(name);
 		self.run_saved(name, &prop);
+		trace_done(&format!("{name}-saved"));
 		let shards = self.threads.min(cases.max(1) as usize).max(1);
 		let per = cases.div_ceil(shards as u32);
 		let base_seed = self.seed ^ fnv64(self.property.as_bytes()) ^ fnv64(name.as_bytes()).rotate_left(17);
@@ -439,8 +464,10 @@ impl Ctx {
 						let stats = RefCell::new(SubStats::default());
 						let failed = AtomicBool::new(false);
 						let strategy = make_strategy();
+						let slot = format!("{name}-shard{shard}");
 						let res = runner.run(&strategy, |case: T| {
 							let mut obs = this.new_obs();
+							trace_case(&this.property, name, &slot, &case);
 							let r = no_panic(|| prop(&case, &mut obs)).and_then(|r| r);
 							if !failed.load(Ordering::Relaxed) {
 								if r.is_err() {
@@ -468,6 +495,7 @@ impl Ctx {
 							}
 							r.map_err(TestCaseError::fail)
 						});
+						trace_done(&slot);
 						let mut out = ShardOut { stats: stats.into_inner(), fail: None, abort: None };
 						match res {
 							Ok(()) => {}
